@@ -81,6 +81,17 @@ class PauliZGate(GeneralGate):
         eiH = np.diag(np.exp(np.diag(H)))
         return UnitaryMatrix(eiH, check_arguments=False)
 
+    def optimize(self, env_matrix: npt.NDArray[np.complex128]) -> list[float]:
+        """
+        Return the optimal parameters with respect to an environment matrix.
+
+        The gate is diagonal and reaches every diagonal unitary, so each
+        diagonal entry is aligned with its entry of the environment.
+        """
+        self.check_env_matrix(env_matrix)
+        phases = np.exp(-1j * np.angle(np.diag(env_matrix)))
+        return self.calc_params(UnitaryMatrix(np.diag(phases), self.radixes))
+
     def calc_params(self, utry: UnitaryMatrix) -> list[float]:
         """Return the parameters for this gate to implement `utry`"""
         return list(-2 * pauliz_expansion(unitary_log_no_i(utry.numpy)))
